@@ -7,7 +7,7 @@ use stun::agent::TransactionId;
 use stun::attributes::*;
 use stun::fingerprint::FINGERPRINT;
 use stun::integrity::MessageIntegrity;
-use stun::message::{Message, MessageClass, MessageType, Method, Setter};
+use stun::message::{Message, MessageType, Setter};
 use stun::xoraddr::XorMappedAddress;
 
 #[derive(Clone, Debug, PartialEq)]
